@@ -163,11 +163,13 @@ FlushDone(p) == IF jcol[p] \in dpend
                 THEN /\ pstate' = [pstate EXCEPT ![jcol[p]] = DONE] /\ dpend' = dpend \ {jcol[p]}
                 ELSE UNCHANGED <<pstate, dpend>>
 
-Loop(p) == /\ pc[p] = "loop" /\ mpc = "run"
-           /\ tasks > 0
+LoopWhen(p, seenPositive) ==
+           /\ pc[p] = "loop" /\ mpc = "run"
+           /\ seenPositive
            /\ pc' = [pc EXCEPT ![p] = "sched"]
            /\ FlushDone(p)
            /\ UNCHANGED <<lu, loc, pivcnt, zset, mast, ukids, fb, queue, qhead, tasks, spin>>
+Loop(p) == LoopWhen(p, tasks > 0)
 
 ExitWhen(p, seenZero) ==
            /\ pc[p] = "loop" /\ mpc = "run"
@@ -189,13 +191,16 @@ Deq(q, h, st) == IF h > Len(q) THEN <<EMPTY, h>>
 
 \* climb from the recorded farthest busy descendant while panels are DONE; a panel
 \* whose DONE store is in flight may be seen either way
-RECURSIVE ClimbSet(_, _)
-ClimbSet(st, b) == IF b = ROOT THEN {b}
-                   ELSE IF st[b] = DONE THEN ClimbSet(st, TLCEval(DadPanel(b)))
-                   ELSE IF b \in dpend THEN {b} \cup ClimbSet(st, TLCEval(DadPanel(b)))
+\* (maybe = the panels that may be seen either way: in the model exactly dpend; for a recorded execution
+\* also the panels whose store was logged while this critical section may already have been reading)
+RECURSIVE ClimbSet(_, _, _)
+ClimbSet(st, b, maybe) ==
+                   IF b = ROOT THEN {b}
+                   ELSE IF b \in maybe THEN {b} \cup ClimbSet(st, TLCEval(DadPanel(b)), maybe)
+                   ELSE IF st[b] = DONE THEN ClimbSet(st, TLCEval(DadPanel(b)), maybe)
                    ELSE {b}
 
-Sched(p) ==
+SchedWith(p, maybe) ==
   /\ pc[p] = "sched"
   /\ LET cur == jcol[p]
          dad == IF cur # EMPTY THEN DadPanel(cur) ELSE EMPTY
@@ -215,7 +220,7 @@ Sched(p) ==
                     st1 == [pstate EXCEPT ![new] = BUSY]
                     canpipe == nd < ROOT /\ uk1[nd] = 1
                     st2 == IF canpipe THEN [st1 EXCEPT ![nd] = CANPIPE] ELSE st1
-                IN \E b \in ClimbSet(st2, fb[new]) :
+                IN \E b \in ClimbSet(st2, fb[new], maybe) :
                    /\ tasks' = tasks - 1
                    /\ pstate' = st2
                    /\ spin' = [c \in Cols |-> IF c >= new /\ c < new + w THEN 1 ELSE spin[c]]
@@ -226,6 +231,8 @@ Sched(p) ==
                    /\ pc' = [pc EXCEPT ![p] = IF new = ROOT THEN "bad"
                                               ELSE IF PType[new] = RELAXED THEN "snew" ELSE "mark"]
   /\ UNCHANGED <<lu, lbusy, kcol, ksup, fsupc, krep, jj, covered, reading, writing, pr, sing, dpend, pivcnt, zset, mast>>
+
+Sched(p) == SchedWith(p, dpend)
 
 (* ---- relaxed supernode at the bottom of the etree ---- *)
 MyCols(p) == PCols(jcol[p])
